@@ -1,4 +1,18 @@
-"""C13 — splitting, batching and recombining shots never loses or invents a shot."""
+"""C13 — splitting, batching and recombining shots never loses or invents a shot.
+
+Case kinds
+  expand / expand_sizes / combine_bitstrings / combine_counts / batches / scale / representing
+      one call of one anchored function (model-compared where the float computation is exact)
+  seq        a HISTORY of such calls executed one after the other in this process; with "reuse" the argument
+             objects (lists, the distribution object) are long-lived and updated in place between the calls, the
+             results of a step may be modified by the caller ("touch") before the next step, and every result is
+             looked at again after the last step.  Siblings differ from the previous step in one component.
+  pipeline   expand_sample_sizes -> split_into_batches -> (a runner delivering exactly the requested shots per copy)
+             -> combine_bitstrings / combine_measurement_counts with the RETURNED objects (oracle only)
+Arguments are always fresh copies of the case data (never the case's own lists), so a function that modifies its
+arguments cannot falsify the reference the oracle compares with.
+"""
+import copy
 from collections import Counter
 from fractions import Fraction
 
@@ -7,13 +21,45 @@ from ..common import rat, unrat
 
 PROP = "C13"
 RULE = ("seeded random inputs per mechanism (expand/expand_sizes/combine_bitstrings/combine_counts/batches/scale/"
-        "representing) plus an exhaustive (n,max) grid; non-trivial: n not a multiple of max with >=2 circuits, "
+        "representing) plus an exhaustive (n,max) grid, call histories on long-lived argument objects (seq) and "
+        "expand->batch->run->combine pipelines; non-trivial: n not a multiple of max with >=2 circuits, "
         "a batch list with a ragged last batch, a distribution needing top-up or elimination, weights with a "
-        "non-zero leftover; distinct = distinct canonical JSON of the case")
+        "non-zero leftover, a history of >=2 calls, a pipeline with an expanded circuit; distinct = distinct "
+        "canonical JSON of the case")
 TRUSTED = ["np.random.choice(size=k) returns exactly k draws, never an outcome of weight 0 (law assumed in "
            "representing_length / representing_support)",
            "float arithmetic is exact on the dyadic inputs used for model comparison; other inputs are checked by the oracle only"]
-ASSUMPTIONS = ["Python int // and % with positive divisor = Lean Int ediv/emod"]
+ASSUMPTIONS = ["Python int // and % with positive divisor = Lean Int ediv/emod",
+               "scale_and_discretize: totals below 2**52 (where the float shares still have a fractional part); "
+               "from 2**52 on see finding F18 in KNOWN_FINDINGS.txt"]
+
+P61 = 2 ** 61 - 1  # CPython: hash(x) == hash(x + P61) for ints
+MODEL_MAX_SHOTS = 4000  # representing results longer than this are checked by the oracle only
+
+
+class _Circ:
+    """stands for a circuit: compares by content and is unhashable (exactly like orquestra's Circuit)"""
+    __slots__ = ("label",)
+
+    def __init__(self, label):
+        self.label = label
+
+    def __eq__(self, other):
+        return isinstance(other, _Circ) and other.label == self.label
+
+    __hash__ = None
+
+    def __repr__(self):
+        return f"<circuit {self.label}>"
+
+
+def _lab(x):
+    if isinstance(x, _Circ):
+        return x.label
+    try:
+        return int(x)
+    except Exception:
+        return repr(x)
 
 
 def _mods():
@@ -25,7 +71,9 @@ def _mods():
     return it, Measurements, MeasurementOutcomeDistribution, scale_and_discretize
 
 
+# ------------------------------------------------------------------------------------------------ corpus
 def corpus():
+    third = [["10", "1/3"], ["11", "1/3"], ["12", "1/3"]]
     return [
         {"kind": "expand", "n": 2 ** 60 + 1, "m": 2 ** 60},  # F4 (fixed): float ceil lost a shot
         {"kind": "expand", "n": 7, "m": 3},
@@ -38,8 +86,340 @@ def corpus():
         {"kind": "representing", "dist": [[format(i, "03b"), "1/8"] for i in range(8)], "n": 3, "seed": 5},
         {"kind": "combine_counts", "all": [[["00", 10], ["11", 20]]] * 3, "mults": [3], "alias": True},
         {"kind": "expand_sizes", "ns": [30, 10, 5], "m": 20, "labels": [0, 0, 1]},
-        {"kind": "representing", "dist": [["10", "1/3"], ["11", "1/3"], ["12", "1/3"]], "n": 10, "seed": 7, "tuples": True},
+        {"kind": "representing", "dist": third, "n": 10, "seed": 7, "tuples": True},
+        # ---- histories / siblings (one component changed, same long-lived objects)
+        {"kind": "seq", "reuse": False, "steps": [{"kind": "expand", "n": 9, "m": 4 + P61}, {"kind": "expand", "n": 9, "m": 4}]},
+        {"kind": "seq", "reuse": False, "steps": [{"kind": "expand", "n": 5, "m": 2 ** 60}, {"kind": "expand", "n": 5 + P61, "m": 2 ** 60}]},
+        {"kind": "seq", "reuse": False, "steps": [{"kind": "expand", "n": 9, "m": 10}, {"kind": "expand", "n": 9, "m": 4}]},
+        {"kind": "seq", "reuse": True, "steps": [
+            {"kind": "representing", "dist": [["00", "1/2"], ["11", "1/2"]], "n": 4, "seed": 3},
+            {"kind": "representing", "dist": [["00", 1], ["11", 0]], "n": 4, "seed": 3},
+            {"kind": "representing", "dist": [["00", 1], ["11", 0]], "n": 7, "seed": 3}]},
+        {"kind": "seq", "reuse": True, "steps": [
+            {"kind": "representing", "dist": [["00", "1/2"], ["11", "1/2"]], "n": 5, "seed": 3, "touch": True},
+            {"kind": "representing", "dist": [["00", "1/2"], ["11", "1/2"]], "n": 5, "seed": 4}]},
+        {"kind": "seq", "reuse": False, "steps": [
+            {"kind": "representing", "dist": [["1,0", "1/2"], ["0,1", "1/2"]], "n": 3, "seed": 3, "tuples": True},
+            {"kind": "representing", "dist": [["10", "1/2"], ["1", "1/2"]], "n": 3, "seed": 3, "tuples": True}]},
+        {"kind": "seq", "reuse": True, "steps": [
+            {"kind": "scale", "values": [1, 2, 5], "total": 16, "exact": True, "touch": True},
+            {"kind": "scale", "values": [1, 2, 5], "total": 16, "exact": True},
+            {"kind": "scale", "values": [1, 2, 5], "total": 17, "exact": True}]},
+        {"kind": "seq", "reuse": True, "steps": [
+            {"kind": "combine_bitstrings", "all": [["0"], ["1", "1"], ["0", "1"]], "mults": [1, 2], "touch": True},
+            {"kind": "combine_bitstrings", "all": [["0"], ["1", "1"], ["0", "1"]], "mults": [2, 1]}]},
+        # ---- special shapes
+        {"kind": "batches", "ns": [3, 50, 7, 1], "max": 2, "labels": [4, 4, 4, 4], "objs": "equal"},
+        {"kind": "batches", "ns": [2 ** 60, 2 ** 60 + 1, 2 ** 60 - 1], "max": 3},
+        {"kind": "combine_counts", "all": [[["0", 2 ** 62]], [["0", 2 ** 62], ["1", 2 ** 63 + 1]]], "mults": [2]},
+        {"kind": "combine_bitstrings", "all": [["01", "10"]] * 3 + [["11"]], "mults": [3, 1], "alias": True},
+        {"kind": "scale", "values": [3, 1, 2, 2], "total": 3 * 2 ** 40 + 5, "exact": True},
+        {"kind": "scale", "values": ["3/1099511627776", "1/1099511627776", "4/1099511627776"], "total": 13, "exact": True},
+        {"kind": "representing", "dist": [["00", "1/2"], ["01", 0], ["10", 0], ["11", "1/2"]], "n": 1, "seed": 11},
+        {"kind": "representing", "dist": third, "n": 100001, "seed": 9, "tuples": True},
+        {"kind": "pipeline", "labels": [0, 0, 1], "ns": [7, 3, 5], "m": 3, "batch": 2, "objs": "same"},
+        # ---- finding F18: totals from 2**52 on, where floats have no fractional part left (see KNOWN_FINDINGS.txt)
+        {"kind": "scale", "values": [1, 2, 5], "total": 2 ** 53 + 1, "exact": False},
+        {"kind": "scale", "values": ["2726259306200869/9007199254740992", "2325987016849297/2251799813685248"], "total": 8032965932052385, "exact": False},
     ]
+
+
+# ------------------------------------------------------------------------------------------------ generators
+def _flags(rng, c, objs=True, tup=True, np_=True):
+    """exotic but legal argument types, a few percent each"""
+    if objs and rng.random() < 0.35:
+        c["objs"] = rng.choice(["same", "equal"])
+    if tup and rng.random() < 0.15:
+        c["tup"] = True
+    if np_ and rng.random() < 0.1:
+        c["np"] = True
+    return c
+
+
+def _gen_expand(rng):
+    m = rng.choice([1, 2, 3, 7, 2 ** 53, 2 ** 60, rng.randrange(1, 2 ** 70)])
+    q = rng.randrange(0, 40)  # the number of copies is what the code materialises: keep it small
+    n = rng.choice([m, m + 1, 2 * m - 1, q * m + rng.randrange(0, m), q * m + 1, max(1, q * m - 1), max(1, m - 1)])
+    return {"kind": "expand", "n": n, "m": m}
+
+
+def _shaped(rng, ns):
+    """special shapes of a list of sample counts: all equal, first == last, sorted either way, one outlier"""
+    r = rng.random()
+    if len(ns) < 2 or r < 0.6:
+        return ns
+    if r < 0.7:
+        return [ns[0]] * len(ns)
+    if r < 0.8:
+        return ns[:-1] + [ns[0]]
+    if r < 0.87:
+        return sorted(ns)
+    if r < 0.94:
+        return sorted(ns, reverse=True)
+    lo = min(ns)
+    out = [lo] * len(ns)
+    out[rng.randrange(len(ns))] = max(ns) + 1
+    return out
+
+
+def _gen_expand_sizes(rng, kmax=7):
+    k = rng.randrange(0, kmax)
+    m = rng.choice([1, 2, 3, 5, 8, 100, 2 ** 55])
+    ns = _shaped(rng, [rng.choice([m, m + 1, rng.randrange(1, 4 * m + 2), rng.randrange(1, 30)]) for _ in range(k)])
+    if m == 2 ** 55:
+        ns = [min(n, 30 * m) for n in ns]
+    return {"kind": "expand_sizes", "ns": ns, "m": m}
+
+
+def _gen_bitstrings(rng, tot):
+    return [[format(rng.randrange(8), "03b") for _ in range(rng.randrange(0, 4))] for _ in range(tot)]
+
+
+def _gen_counts(rng, tot, big=False):
+    allc = []
+    for _ in range(tot):
+        c = Counter(format(rng.randrange(4), "02b") for _ in range(rng.randrange(1, 6)))
+        if big:
+            c = {k: v + rng.choice([2 ** 53, 2 ** 62, 2 ** 63, 2 ** 64 + 1]) for k, v in c.items()}
+        allc.append([[k2, v] for k2, v in c.items()])
+    return allc
+
+
+def _gen_mults(rng, kmax=6, mumax=4):
+    return [rng.randrange(1, mumax) for _ in range(rng.randrange(0, kmax))]
+
+
+def _gen_batches(rng):
+    k = rng.randrange(0, 12)
+    ns = _shaped(rng, [rng.randrange(1, 50) for _ in range(k)])
+    mx = rng.choice([1, 2, 3, 4, 5, 7, 20, 0, -1])
+    return {"kind": "batches", "ns": ns, "max": mx}
+
+
+def _dyadic_weights(rng, k, hi=9):
+    parts = [rng.randrange(1, hi) for _ in range(k)]
+    s = sum(parts)
+    p2 = 1
+    while p2 < s:
+        p2 *= 2
+    parts[-1] += p2 - s
+    return parts
+
+
+def _gen_scale(rng, exact=None):
+    k = rng.randrange(1, 7)
+    if exact is None:
+        exact = rng.random() < 0.6
+    if exact:
+        # dyadic weights with a power-of-two sum: floats are exact, compare with the model
+        parts = _dyadic_weights(rng, k)
+        scale = rng.choice([1, 2, 4, 8])
+        vals = [rat(Fraction(p, scale)) for p in parts]
+        return {"kind": "scale", "values": vals, "total": rng.randrange(1, 200), "exact": True}
+    vals = [rat(Fraction(rng.randrange(1, 1000), rng.randrange(1, 1000))) for _ in range(k)]
+    return {"kind": "scale", "values": vals, "total": rng.randrange(1, 5000), "exact": False}
+
+
+def _cuts(rng, nk, den):
+    cuts = sorted(rng.randrange(0, den + 1) for _ in range(nk - 1))
+    return [b - a for a, b in zip([0] + cuts, cuts + [den])]
+
+
+def _gen_representing(rng, wmax=4):
+    w = rng.randrange(1, wmax)
+    nk = rng.randrange(1, min(2 ** w, 6) + 1)
+    keys = rng.sample([format(i, f"0{w}b") for i in range(2 ** w)], nk)
+    den = rng.choice([2, 4, 8, 16, 32])
+    ps = _cuts(rng, nk, den)
+    dist = [[k2, rat(Fraction(p, den))] for k2, p in zip(keys, ps)]
+    return {"kind": "representing", "dist": dist, "n": rng.randrange(1, 40), "seed": rng.randrange(2 ** 31)}
+
+
+def _gen_representing_tuples(rng):
+    # outcomes that are tuples of small integers, not bits (entries of two digits included)
+    nk = rng.randrange(2, 6)
+    width = rng.randrange(1, 3)
+    keys = set()
+    while len(keys) < nk:
+        keys.add(",".join(str(rng.choice([0, 1, 2, 9, 10, 11, 12])) for _ in range(width)))
+    den = rng.choice([4, 8, 16])
+    ps = _cuts(rng, nk, den)
+    if rng.random() < 0.5:
+        ps, den = [1] * nk, nk
+    dist = [[k2, rat(Fraction(p, den))] for k2, p in zip(sorted(keys), ps)]
+    return {"kind": "representing", "dist": dist, "n": rng.randrange(1, 30), "seed": rng.randrange(2 ** 31), "tuples": True}
+
+
+def _gen_representing_uniform(rng):
+    # uniform distributions: the rounding stage leaves a deficit / excess of several shots
+    w = rng.randrange(1, 5)
+    keys = [format(i, f"0{w}b") for i in range(2 ** w)]
+    dist = [[k2, rat(Fraction(1, 2 ** w))] for k2 in keys]
+    return {"kind": "representing", "dist": dist, "n": rng.randrange(1, 3 * 2 ** w), "seed": rng.randrange(2 ** 31)}
+
+
+def _gen_representing_heavy(rng):
+    """many equally likely outcomes and a shot number for which the rounding stage is off by MANY shots: the
+    top-up draws the same outcome repeatedly, the elimination asks for more copies of an outcome than exist"""
+    w = rng.randrange(3, 6)
+    allk = [format(i, f"0{w}b") for i in range(2 ** w)]
+    kk = rng.choice([8, 16, 32, rng.randrange(6, 33)])
+    kk = min(kk, 2 ** w)
+    keys = rng.sample(allk, kk)
+    h = kk // 2
+    n = rng.choice([rng.randrange(h + 1, kk), rng.randrange(h + 1, kk), h + 1, rng.randrange(1, h),
+                    rng.randrange(kk + 1, kk + h), rng.randrange(kk + h + 1, 2 * kk)])
+    c = {"kind": "representing", "dist": [[k2, rat(Fraction(1, kk))] for k2 in keys], "n": n, "seed": rng.randrange(2 ** 31)}
+    if kk & (kk - 1):
+        c["exact"] = False
+    return c
+
+
+def _gen_representing_partial_support(rng):
+    """several outcomes of probability 0 next to a uniform support; also fewer shots than keys"""
+    w = rng.randrange(2, 5)
+    allk = [format(i, f"0{w}b") for i in range(2 ** w)]
+    nk = rng.randrange(3, min(2 ** w, 9) + 1)
+    keys = rng.sample(allk, nk)
+    s = rng.choice([1, 2, 4]) if nk > 4 else rng.choice([1, 2])
+    supp = set(rng.sample(keys, s))
+    dist = [[k2, rat(Fraction(1, s)) if k2 in supp else 0] for k2 in keys]
+    n = rng.choice([1, rng.randrange(1, nk), rng.randrange(1, 3 * nk)])
+    return {"kind": "representing", "dist": dist, "n": n, "seed": rng.randrange(2 ** 31)}
+
+
+def _gen_representing_wide(rng):
+    """registers of 9..14 sites, a handful of outcomes"""
+    w = rng.randrange(9, 15)
+    nk = rng.randrange(2, 6)
+    keys = set()
+    while len(keys) < nk:
+        keys.add(format(rng.randrange(2 ** w), f"0{w}b"))
+    den = rng.choice([4, 8, 16])
+    ps = _cuts(rng, nk, den) if rng.random() < 0.5 else None
+    if ps is None:
+        ps, den = [1] * nk, nk
+    dist = [[k2, rat(Fraction(p, den))] for k2, p in zip(sorted(keys), ps)]
+    return {"kind": "representing", "dist": dist, "n": rng.randrange(1, 40), "seed": rng.randrange(2 ** 31)}
+
+
+def _gen_representing_inexact(rng, big=False):
+    """probabilities that are not dyadic (oracle only); with big: >= 1e5 shots and an off-by-few rounding stage"""
+    nk = rng.choice([3, 5, 6, 7]) if big else rng.randrange(2, 7)
+    w = 3
+    keys = rng.sample([format(i, f"0{w}b") for i in range(2 ** w)], nk)
+    if big or rng.random() < 0.4:
+        ps, den = [1] * nk, nk
+    else:
+        ps = [rng.randrange(1, 50) for _ in range(nk)]
+        den = sum(ps)
+    dist = [[k2, rat(Fraction(p, den))] for k2, p in zip(keys, ps)]
+    if big:
+        # n = q*nk +- 1: every outcome is rounded the same way, the rounding stage is off by exactly one shot
+        n = nk * rng.randrange(100001 // nk + 1, 260000 // nk) + rng.choice([1, -1])
+    else:
+        n = rng.randrange(1, 300)
+    return {"kind": "representing", "dist": dist, "n": n, "seed": rng.randrange(2 ** 31), "exact": False}
+
+
+def _sibling(rng, c):
+    """a copy of the case that differs in ONE component (it may equal the case: asked twice)"""
+    s = copy.deepcopy(c)
+    s.pop("touch", None)
+    k = c["kind"]
+    r = rng.random()
+    if k == "expand_sizes":
+        ns = s["ns"]
+        if r < 0.3 or not ns:
+            s["m"] = rng.choice([1, 2, 3, 5, 8, 100, max(1, c["m"] - 1), c["m"] + 1, c["m"] + P61])
+            if s["m"] < c["m"]:
+                s["ns"] = [min(n, 40 * s["m"]) for n in ns]
+        elif r < 0.55:
+            i = rng.randrange(len(ns))
+            ns[i] = max(1, ns[i] + rng.choice([-1, 1, c["m"]]))
+        elif r < 0.8 and len(ns) >= 2:
+            i, j = rng.sample(range(len(ns)), 2)
+            ns[i], ns[j] = ns[j], ns[i]
+        elif r < 0.9:
+            s["labels"] = [rng.randrange(0, 2) for _ in ns]
+    elif k == "batches":
+        ns = s["ns"]
+        if r < 0.35 or not ns:
+            s["max"] = rng.choice([1, 2, 3, 4, 5, 7, 20, max(1, c["max"]) + P61, max(1, c["max"] - 1)])
+        elif r < 0.6:
+            i = rng.randrange(len(ns))
+            ns[i] = max(1, ns[i] + rng.choice([-1, 1, 100]))
+        elif r < 0.85 and len(ns) >= 2:
+            i, j = rng.sample(range(len(ns)), 2)
+            ns[i], ns[j] = ns[j], ns[i]
+    elif k in ("combine_bitstrings", "combine_counts"):
+        mu = s["mults"]
+        if r < 0.4 and len(mu) >= 2:
+            rng.shuffle(mu)
+            if mu == c["mults"]:
+                mu.reverse()
+        elif r < 0.6 and mu and max(mu) >= 2:
+            i = [j for j, x in enumerate(mu) if x >= 2][0]
+            mu[i:i + 1] = [1, mu[i] - 1]
+        elif r < 0.85 and s["all"]:
+            i = rng.randrange(len(s["all"]))
+            s["all"][i] = (_gen_bitstrings if k == "combine_bitstrings" else _gen_counts)(rng, 1)[0]
+    elif k == "scale":
+        if r < 0.45:
+            s["total"] = max(1, c["total"] + rng.choice([-1, 1, 7, c["total"]]))
+        elif r < 0.7 and len(s["values"]) >= 2:
+            v = s["values"]
+            i, j = rng.sample(range(len(v)), 2)
+            v[i], v[j] = v[j], v[i]
+        elif r < 0.85:
+            # one weight changed, still dyadic with a power-of-two total when the case is exact
+            s["values"] = _gen_scale(rng, exact=c["exact"])["values"]
+    elif k == "representing":
+        d = s["dist"]
+        if r < 0.35:
+            s["n"] = max(1, c["n"] + rng.choice([-1, 1, 2, 5, -3]))
+        elif r < 0.75 and len(d) >= 2:
+            # the probability of one outcome moves to another one (support shrinks), same keys, same n
+            pos = [i for i, (_, p) in enumerate(d) if unrat(p) > 0]
+            if len(pos) >= 2:
+                rng.shuffle(pos)
+                j, gone = pos[0], pos[1:1 + rng.choice([1, 1, max(1, len(pos) // 2)])]
+                for i in gone:
+                    d[j][1] = rat(unrat(d[j][1]) + unrat(d[i][1]))
+                    d[i][1] = 0
+        elif r < 0.9 and len(d) >= 2:
+            i, j = rng.sample(range(len(d)), 2)
+            d[i][1], d[j][1] = d[j][1], d[i][1]
+        s["seed"] = rng.randrange(2 ** 31)
+    return s
+
+
+def _touch_again(rng, base):
+    """ask, edit the answer, ask the same again (on the same or on fresh argument objects)"""
+    first = copy.deepcopy(base)
+    first["touch"] = True
+    again = copy.deepcopy(base)
+    again.pop("touch", None)
+    if "seed" in again:
+        again["seed"] = rng.randrange(2 ** 31)
+    return {"kind": "seq", "reuse": rng.random() < 0.5, "steps": [first, again]}
+
+
+def _history(rng, base, length=None):
+    if rng.random() < 0.25:
+        return _touch_again(rng, base)
+    steps = [base]
+    for _ in range(length or rng.randrange(1, 4)):
+        prev = steps[-1]
+        nxt = _sibling(rng, prev)
+        if rng.random() < 0.3:
+            nxt = copy.deepcopy(steps[0])  # the first request again after the others
+            nxt.pop("touch", None)
+        steps.append(nxt)
+    for st in steps[:-1]:
+        if rng.random() < 0.35:
+            st["touch"] = True
+    return {"kind": "seq", "reuse": rng.random() < 0.6, "steps": steps}
 
 
 def generate(rng, tier):
@@ -50,86 +430,194 @@ def generate(rng, tier):
         for m in range(1, grid + 1):
             cases.append({"kind": "expand", "n": n, "m": m})
     for _ in range(400 if big else 60):
-        m = rng.choice([1, 2, 3, 7, 2 ** 53, 2 ** 60, rng.randrange(1, 2 ** 70)])
-        q = rng.randrange(0, 40)  # the number of copies is what the code materialises: keep it small
-        n = rng.choice([m, m + 1, 2 * m - 1, q * m + rng.randrange(0, m), q * m + 1, max(1, q * m - 1), max(1, m - 1)])
-        cases.append({"kind": "expand", "n": n, "m": m})
+        cases.append(_flags(rng, _gen_expand(rng), objs=False, tup=False))
     for _ in range(600 if big else 80):
-        k = rng.randrange(0, 7)
-        m = rng.choice([1, 2, 3, 5, 8, 100, 2 ** 55])
-        ns = [rng.choice([m, m + 1, rng.randrange(1, 4 * m + 2), rng.randrange(1, 30) * (1 if m > 1 else 1)]) for _ in range(k)]
-        cases.append({"kind": "expand_sizes", "ns": ns, "m": m})
-        if k >= 2:
+        c = _gen_expand_sizes(rng)
+        cases.append(_flags(rng, c))
+        if len(c["ns"]) >= 2:
             # the same (equal) circuit at several, also consecutive, positions of the request
-            labels = [rng.randrange(0, 2) for _ in range(k)]
-            cases.append({"kind": "expand_sizes", "ns": ns, "m": m, "labels": labels})
+            labels = [rng.randrange(0, 2) for _ in c["ns"]]
+            cases.append(_flags(rng, {"kind": "expand_sizes", "ns": list(c["ns"]), "m": c["m"], "labels": labels}))
+    for _ in range(20 if big else 4):
+        # long requests (>= 64 circuits) with one entry beyond 2**53
+        k = rng.randrange(64, 140)
+        m = rng.choice([3, 8, 2 ** 60])
+        ns = [rng.randrange(1, 4 * min(m, 10)) for _ in range(k)]
+        ns[rng.randrange(k)] = 2 * m + 1
+        cases.append(_flags(rng, {"kind": "expand_sizes", "ns": ns, "m": m, "labels": [rng.randrange(0, 3) for _ in range(k)]}))
     for _ in range(400 if big else 60):
-        k = rng.randrange(0, 6)
-        mults = [rng.randrange(1, 4) for _ in range(k)]
+        mults = _gen_mults(rng)
         tot = sum(mults) + (rng.choice([-1, 1]) if rng.random() < 0.15 and sum(mults) > 0 else 0)
-        allb = [[format(rng.randrange(8), "03b") for _ in range(rng.randrange(0, 4))] for _ in range(tot)]
-        cases.append({"kind": "combine_bitstrings", "all": allb, "mults": mults})
-        allc = []
-        for _ in range(tot):
-            c = Counter(format(rng.randrange(4), "02b") for _ in range(rng.randrange(1, 6)))
-            allc.append([[k2, v] for k2, v in c.items()])
-        cases.append({"kind": "combine_counts", "all": allc, "mults": mults})
+        allb = _gen_bitstrings(rng, tot)
+        cases.append(_flags(rng, {"kind": "combine_bitstrings", "all": allb, "mults": mults}, objs=False, np_=False))
+        allc = _gen_counts(rng, tot, big=rng.random() < 0.15)
+        c = {"kind": "combine_counts", "all": allc, "mults": mults}
+        if rng.random() < 0.2:
+            c["counter"] = True
+        cases.append(_flags(rng, c, objs=False, np_=False))
         if tot >= 2 and tot == sum(mults):
             rep = [allc[0]] * tot if rng.random() < 0.5 else [rng.choice(allc[:2]) for _ in range(tot)]
             cases.append({"kind": "combine_counts", "all": rep, "mults": mults, "alias": True})
+            repb = [allb[0]] * tot if rng.random() < 0.5 else [rng.choice(allb[:2]) for _ in range(tot)]
+            cases.append({"kind": "combine_bitstrings", "all": repb, "mults": mults, "alias": True})
+    for _ in range(60 if big else 12):
+        # many copies per circuit (>= 9, >= 13, >= 64)
+        mults = [rng.choice([1, 9, 13, 17, 64, 70]) for _ in range(rng.randrange(1, 4))]
+        tot = sum(mults)
+        cases.append({"kind": "combine_bitstrings", "all": _gen_bitstrings(rng, tot), "mults": mults})
+        cases.append({"kind": "combine_counts", "all": _gen_counts(rng, tot, big=rng.random() < 0.3), "mults": mults})
+    for _ in range(30 if big else 6):
+        # many circuits (>= 64 groups), one or two copies each
+        mults = [rng.choice([1, 1, 2, 3]) for _ in range(rng.randrange(64, 120))]
+        tot = sum(mults)
+        cases.append({"kind": "combine_bitstrings", "all": _gen_bitstrings(rng, tot), "mults": mults})
+        cases.append({"kind": "combine_counts", "all": _gen_counts(rng, tot), "mults": mults})
     for _ in range(400 if big else 60):
-        k = rng.randrange(0, 12)
-        ns = [rng.randrange(1, 50) for _ in range(k)]
-        mx = rng.choice([1, 2, 3, 4, 5, 7, 20, 0, -1])
-        c = {"kind": "batches", "ns": ns, "max": mx}
-        if rng.random() < 0.1:
+        c = _gen_batches(rng)
+        k = len(c["ns"])
+        r = rng.random()
+        if r < 0.1:
             c["n_circuits"] = k + 1
-        cases.append(c)
+        elif r < 0.4 and k >= 2:
+            # equal circuits at several positions, asking for different numbers of samples
+            c["labels"] = [rng.randrange(0, 3) for _ in range(k)]
+        elif r < 0.5 and k >= 1:
+            c["same_obj"] = True  # the caller batches the sample counts themselves: one list object in both roles
+        if rng.random() < 0.2 and k:
+            # sample counts that differ only beyond 2**53 / 2**63
+            base = rng.choice([2 ** 53, 2 ** 60, 2 ** 63, 2 ** 70])
+            c["ns"] = [base + rng.randrange(-2, 3) for _ in range(k)]
+        cases.append(_flags(rng, c, objs="same_obj" not in c and "n_circuits" not in c))
+    for _ in range(20 if big else 4):
+        k = rng.randrange(64, 200)
+        cases.append(_flags(rng, {"kind": "batches", "ns": [rng.randrange(1, 50) for _ in range(k)],
+                                  "max": rng.choice([1, 7, 63, 64, 65, k - 1, k, k + 1]),
+                                  "labels": [rng.randrange(0, 5) for _ in range(k)]}))
     for _ in range(400 if big else 80):
-        k = rng.randrange(1, 7)
-        if rng.random() < 0.6:
-            # dyadic weights with a power-of-two sum: floats are exact, compare with the model
-            parts = [rng.randrange(1, 9) for _ in range(k)]
-            s = sum(parts)
-            p2 = 1
-            while p2 < s:
-                p2 *= 2
-            parts[-1] += p2 - s
-            scale = rng.choice([1, 2, 4, 8])
-            vals = [rat(Fraction(p, scale)) for p in parts]
-            cases.append({"kind": "scale", "values": vals, "total": rng.randrange(1, 200), "exact": True})
-        else:
-            vals = [rat(Fraction(rng.randrange(1, 1000), rng.randrange(1, 1000))) for _ in range(k)]
-            cases.append({"kind": "scale", "values": vals, "total": rng.randrange(1, 5000), "exact": False})
-    for _ in range(300 if big else 60):
-        w = rng.randrange(1, 4)
-        nk = rng.randrange(1, min(2 ** w, 6) + 1)
-        keys = rng.sample([format(i, f"0{w}b") for i in range(2 ** w)], nk)
-        den = rng.choice([2, 4, 8, 16, 32])
-        cuts = sorted(rng.randrange(0, den + 1) for _ in range(nk - 1))
-        ps = [b - a for a, b in zip([0] + cuts, cuts + [den])]
-        dist = [[k2, rat(Fraction(p, den))] for k2, p in zip(keys, ps)]
-        cases.append({"kind": "representing", "dist": dist, "n": rng.randrange(1, 40), "seed": rng.randrange(2 ** 31)})
-    for _ in range(200 if big else 40):
-        # outcomes that are tuples of small integers, not bits (entries of two digits included)
-        nk = rng.randrange(2, 6)
-        width = rng.randrange(1, 3)
-        keys = set()
-        while len(keys) < nk:
-            keys.add(",".join(str(rng.choice([0, 1, 2, 9, 10, 11, 12])) for _ in range(width)))
-        den = rng.choice([4, 8, 16])
-        cuts = sorted(rng.randrange(0, den + 1) for _ in range(nk - 1))
-        ps = [b - a for a, b in zip([0] + cuts, cuts + [den])]
+        c = _gen_scale(rng)
+        r = rng.random()
+        if c["exact"] and r < 0.25:
+            # the same proportions at a very small / very large magnitude (still exact: powers of two)
+            f = Fraction(2) ** rng.choice([-60, -40, -30, 30, 40])
+            c["values"] = [rat(unrat(v) * f) for v in c["values"]]
+        elif c["exact"] and r < 0.5:
+            c["total"] = rng.choice([rng.randrange(10 ** 5, 10 ** 7), rng.randrange(2 ** 30, 2 ** 44)])
+        elif not c["exact"] and r < 0.3:
+            c["total"] = rng.randrange(10 ** 5, 2 ** 40)
+        elif not c["exact"] and r < 0.5:
+            # weights spanning many orders of magnitude, the small ones still owed several units
+            c["values"] = [rat(unrat(v) * Fraction(2) ** rng.choice([0, 0, -27, -20, 20, 30])) for v in c["values"]]
+            c["total"] = rng.randrange(2 ** 36, 2 ** 44)
+        if rng.random() < 0.15:
+            c["num"] = rng.choice(["int", "np"])
+        cases.append(_flags(rng, c, objs=False))
+    for _ in range(40 if big else 10):
+        # all weights equal / few distinct weights / many weights (>= 64)
+        k = rng.choice([2, 3, 5, 8, 64, 100])
         if rng.random() < 0.5:
-            ps, den = [1] * nk, nk
-        dist = [[k2, rat(Fraction(p, den))] for k2, p in zip(sorted(keys), ps)]
-        cases.append({"kind": "representing", "dist": dist, "n": rng.randrange(1, 30), "seed": rng.randrange(2 ** 31), "tuples": True})
+            vals = [rat(Fraction(1, rng.choice([1, 2, 4])))] * k
+            exact = k in (2, 8, 64)
+        else:
+            vals = [rng.choice([1, 2, 3]) for _ in range(k)]
+            exact = sum(vals) & (sum(vals) - 1) == 0
+        cases.append({"kind": "scale", "values": vals, "total": rng.choice([1, k - 1, k, k + 1, rng.randrange(1, 1000)]),
+                      "exact": exact})
+    for _ in range(10 if big else 2):
+        # F18 (known): totals from 2**52 on
+        cases.append({"kind": "scale", "values": [1, 2, 5], "total": 2 ** 53 + 1 + 2 * rng.randrange(0, 2 ** 20), "exact": False})
+        cases.append({"kind": "scale", "values": _gen_scale(rng, exact=False)["values"], "total": rng.randrange(2 ** 52, 2 ** 53), "exact": False})
     for _ in range(300 if big else 60):
-        # uniform distributions: the rounding stage leaves a deficit / excess of several shots
-        w = rng.randrange(1, 5)
-        keys = [format(i, f"0{w}b") for i in range(2 ** w)]
-        dist = [[k2, rat(Fraction(1, 2 ** w))] for k2 in keys]
-        cases.append({"kind": "representing", "dist": dist, "n": rng.randrange(1, 3 * 2 ** w), "seed": rng.randrange(2 ** 31)})
+        cases.append(_flags(rng, _gen_representing(rng), objs=False, tup=False))
+    for _ in range(200 if big else 40):
+        cases.append(_gen_representing_tuples(rng))
+    for _ in range(300 if big else 60):
+        cases.append(_gen_representing_uniform(rng))
+    for _ in range(300 if big else 60):
+        cases.append(_gen_representing_partial_support(rng))
+    for _ in range(300 if big else 60):
+        cases.append(_gen_representing_heavy(rng))
+    for _ in range(100 if big else 20):
+        cases.append(_gen_representing_wide(rng))
+    for _ in range(200 if big else 40):
+        cases.append(_gen_representing_inexact(rng))
+    for _ in range(12 if big else 4):
+        cases.append(_gen_representing_inexact(rng, big=True))
+    # ---- histories
+    for _ in range(150 if big else 30):
+        # expansions asked one after the other: same n / other max (both directions), same max / other n,
+        # arguments with equal hash
+        m = rng.choice([2, 3, 5, 8, 100])
+        n = rng.randrange(m + 1, 6 * m)
+        m2 = rng.choice([x for x in (1, 2, 3, 5, 8, 100, 1000) if x != m])
+        hm = rng.choice([2 ** 59, 2 ** 60, 2 ** 60 + 3])
+        hn = rng.randrange(1, 2 ** 20)
+        steps = rng.choice([
+            [(n, m), (n, m2)], [(n, m2), (n, m)], [(n, m), (n + 1, m)], [(n, m + P61), (n, m)],
+            [(n, m), (n, m + P61)], [(hn, hm), (hn + P61, hm)], [(hn + P61, hm), (hn, hm)],
+            [(n, m), (n, m2), (n, m)]])
+        cases.append({"kind": "seq", "reuse": False, "steps": [{"kind": "expand", "n": a, "m": b} for a, b in steps]})
+    for _ in range(150 if big else 30):
+        base = _gen_expand_sizes(rng, kmax=6)
+        if rng.random() < 0.5 and base["ns"]:
+            base["labels"] = [rng.randrange(0, 2) for _ in base["ns"]]
+        cases.append(_history(rng, _flags(rng, base, tup=False)))
+    for _ in range(150 if big else 30):
+        base = _gen_batches(rng)
+        if base["max"] <= 0:
+            base["max"] = 2
+        if rng.random() < 0.5 and base["ns"]:
+            base["labels"] = [rng.randrange(0, 3) for _ in base["ns"]]
+        cases.append(_history(rng, _flags(rng, base, tup=False)))
+    for _ in range(150 if big else 30):
+        mults = _gen_mults(rng)
+        tot = sum(mults)
+        if rng.random() < 0.5:
+            base = {"kind": "combine_bitstrings", "all": _gen_bitstrings(rng, tot), "mults": mults}
+        else:
+            base = {"kind": "combine_counts", "all": _gen_counts(rng, tot), "mults": mults}
+        if rng.random() < 0.3:
+            base["alias"] = True
+        cases.append(_history(rng, base))
+    for _ in range(150 if big else 30):
+        cases.append(_history(rng, _gen_scale(rng)))
+    for _ in range(400 if big else 90):
+        g = rng.choice([_gen_representing, _gen_representing_uniform, _gen_representing_partial_support,
+                        _gen_representing_tuples, _gen_representing_heavy, _gen_representing_heavy])
+        cases.append(_history(rng, g(rng)))
+    for _ in range(60 if big else 12):
+        # outcomes whose digits concatenate to the same text: (1,0) and (10,), (1,1,2) and (11,2) …
+        a = rng.sample(["1,0", "1,1", "1,2", "2,0", "2,1", "9,1", "10,1", "1,10"], 2)
+        b = [x.replace(",", "") for x in a]
+        sa = {"kind": "representing", "dist": [[x, "1/2"] for x in a], "n": rng.randrange(1, 12),
+              "seed": rng.randrange(2 ** 31), "tuples": True}
+        sb = {"kind": "representing", "dist": [[x, "1/2"] for x in b], "n": rng.randrange(1, 12),
+              "seed": rng.randrange(2 ** 31), "tuples": True}
+        steps = [sa, sb] if rng.random() < 0.5 else [sb, sa]
+        cases.append({"kind": "seq", "reuse": rng.random() < 0.5, "steps": steps})
+    for _ in range(150 if big else 36):
+        # the smallest requests (one circuit, one group, one weight, one or two outcomes): asked, answer edited, asked again
+        kind = rng.choice(["expand_sizes", "expand_sizes", "combine_bitstrings", "combine_counts", "scale", "representing"])
+        if kind == "expand_sizes":
+            m = rng.choice([1, 2, 3, 5, 8])
+            base = {"kind": kind, "ns": [rng.randrange(1, 5 * m + 2) for _ in range(rng.choice([1, 1, 2]))], "m": m}
+            _flags(rng, base, tup=False)
+        elif kind == "scale":
+            base = {"kind": kind, "values": _dyadic_weights(rng, rng.choice([1, 2])), "total": rng.randrange(1, 50), "exact": True}
+        elif kind == "representing":
+            base = rng.choice([_gen_representing, _gen_representing_uniform])(rng)
+        else:
+            mults = [rng.randrange(1, 4)]
+            gen = _gen_bitstrings if kind == "combine_bitstrings" else _gen_counts
+            base = {"kind": kind, "all": gen(rng, mults[0]), "mults": mults}
+        cases.append(_touch_again(rng, base))
+    # ---- pipelines
+    for _ in range(300 if big else 70):
+        k = rng.randrange(0, 7)
+        m = rng.choice([1, 2, 3, 5, 8])
+        ns = [rng.choice([m, m + 1, rng.randrange(1, 5 * m + 2)]) for _ in range(k)]
+        c = {"kind": "pipeline", "labels": [rng.randrange(0, 3) for _ in range(k)] if rng.random() < 0.6 else list(range(k)),
+             "ns": ns, "m": m, "batch": rng.choice([1, 2, 3, 5, 100])}
+        cases.append(_flags(rng, c, tup=False))
     return cases
 
 
@@ -147,61 +635,266 @@ def nontrivial(c):
         return len(c["values"]) >= 2
     if k == "representing":
         return len(c["dist"]) >= 2
+    if k == "seq":
+        return len(c["steps"]) >= 2
+    if k == "pipeline":
+        return any(n > c["m"] for n in c["ns"])
     return False
 
 
-def run_impl(c):
+# ------------------------------------------------------------------------------------------------ implementation
+def _ints_of(c):
+    for key in ("n", "m", "max", "total", "batch"):
+        if isinstance(c.get(key), int):
+            yield c[key]
+    yield from (x for x in c.get("ns", []) if isinstance(x, int))
+
+
+def _npint(c, x):
+    """numpy integers instead of Python ints (only when every integer of the request fits comfortably)"""
+    if c.get("np") and isinstance(x, int) and all(abs(v) < 2 ** 31 for v in _ints_of(c)):
+        import numpy as np
+        return np.int64(x)
+    return x
+
+
+def _arg(pool, role, content, c):
+    """the argument object for `role`: a tuple, a fresh list, or (history with reuse) the caller's long-lived list
+    updated in place"""
+    if c.get("tup"):
+        return tuple(content)
+    if pool is not None and pool.get("reuse"):
+        obj = pool.get(role)
+        if isinstance(obj, list):
+            obj[:] = content
+            return obj
+        pool[role] = list(content)
+        return pool[role]
+    return list(content)
+
+
+def _circuits(c, labels):
+    how = c.get("objs")
+    if how == "same":
+        made = {}
+        return [made.setdefault(x, _Circ(x)) for x in labels]
+    if how == "equal":
+        return [_Circ(x) for x in labels]
+    return list(labels)
+
+
+def _bitstring_for(label, copy_index, shot):
+    return format((label * 7 + copy_index * 3 + shot * 5) % 8, "03b")
+
+
+def _run_pipeline(c, it):
+    labels, ns = c["labels"], c["ns"]
+    circuits = _circuits(c, labels)
+    ns_arg = [_npint(c, n) for n in ns]
+    new_c, new_n, mults = it.expand_sample_sizes(circuits, ns_arg, _npint(c, c["m"]))
+    out = {"batches": [], "short_batch": None}
+    all_bits, pos = [], 0
+    # a runner: every batch is executed with the batch's sample count, each copy keeps the shots it asked for
+    for chunk, n_batch in it.split_into_batches(new_c, new_n, c["batch"]):
+        out["batches"].append([[_lab(x) for x in chunk], int(n_batch)])
+        for circ in chunk:
+            want = int(new_n[pos])
+            if int(n_batch) < want and out["short_batch"] is None:
+                out["short_batch"] = [pos, want, int(n_batch)]
+            all_bits.append([_bitstring_for(_lab(circ), pos, s) for s in range(min(want, int(n_batch)))])
+            pos += 1
+    all_counts = [dict(Counter(b)) for b in all_bits]
+    out["copies"] = pos
+    cb = it.combine_bitstrings(all_bits, mults)
+    cc = it.combine_measurement_counts(all_counts, mults)
+    out["bit_totals"] = [len(g) for g in cb]
+    out["count_totals"] = [int(sum(d.values())) for d in cc]
+    out["agree"] = [dict(Counter(g)) == {k: int(v) for k, v in d.items()} for g, d in zip(cb, cc)]
+    out["new_circuits"] = [_lab(x) for x in new_c]
+    out["new_ns"] = [int(x) for x in new_n]
+    out["mults"] = [int(x) for x in mults]
+    out["args_intact"] = [_lab(x) for x in circuits] == list(labels) and [int(x) for x in ns_arg] == list(ns)
+    return out
+
+
+def _run_one(c, pool=None):
     it, Measurements, MOD, scale_and_discretize = _mods()
     k = c["kind"]
+    touch = c.get("touch")
     try:
         if k == "expand":
-            ns, mult = it._expand_sample_size(c["n"], c["m"])
-            return {"ns": list(ns), "mult": mult}
+            ns, mult = it._expand_sample_size(_npint(c, c["n"]), _npint(c, c["m"]))
+            return {"ns": [int(x) for x in ns], "mult": int(mult)}
         if k == "expand_sizes":
-            cs = c.get("labels") or list(range(len(c["ns"])))
-            a, b, m = it.expand_sample_sizes(cs, c["ns"], c["m"])
-            return {"circuits": list(a), "ns": list(b), "mults": list(m)}
-        if k == "combine_bitstrings":
-            return {"res": it.combine_bitstrings(c["all"], c["mults"])}
-        if k == "combine_counts":
+            labels = c.get("labels") or list(range(len(c["ns"])))
+            circuits = _arg(pool, "circuits", _circuits(c, labels), c)
+            ns_arg = _arg(pool, "ns", [_npint(c, n) for n in c["ns"]], c)
+            a, b, m = it.expand_sample_sizes(circuits, ns_arg, _npint(c, c["m"]))
+            out = {"circuits": [_lab(x) for x in a], "ns": [int(x) for x in b], "mults": [int(x) for x in m]}
+            out["args_intact"] = [_lab(x) for x in circuits] == list(labels) and [int(x) for x in ns_arg] == c["ns"]
+            if touch:
+                # the caller edits what it was given back (its own lists from now on)
+                for lst in (a, b, m):
+                    if isinstance(lst, list):
+                        lst.append(lst[0] if lst else 1)
+                        lst.reverse()
+            return out
+        if k in ("combine_bitstrings", "combine_counts"):
+            bits = k == "combine_bitstrings"
+            mk = (lambda g: list(g)) if bits else (lambda d: (Counter if c.get("counter") else dict)(dict(map(tuple, d))))
             if c.get("alias"):
-                # equal per-copy results are the SAME dict object (a memoising backend returns shared objects)
-                pool = {}
-                args = [pool.setdefault(common.canon(d), dict(map(tuple, d))) for d in c["all"]]
+                # equal per-copy results are the SAME object (a memoising backend returns shared objects)
+                shared = {}
+                args = [shared.setdefault(common.canon(d), mk(d)) for d in c["all"]]
             else:
-                args = [dict(map(tuple, d)) for d in c["all"]]
-            res = it.combine_measurement_counts(args, c["mults"])
-            out = {"res": [[[kk, v] for kk, v in d.items()] for d in res]}
-            out["args_intact"] = [sorted(a.items()) for a in args] == [sorted(map(tuple, d)) for d in c["all"]]
-            res2 = it.combine_measurement_counts(args, c["mults"])
-            out["again"] = [[[kk, v] for kk, v in d.items()] for d in res2]
+                args = [mk(d) for d in c["all"]]
+            args = _arg(pool, "all", args, c)
+            mults = _arg(pool, "mults", c["mults"], c)
+            show = (lambda g: list(g)) if bits else (lambda d: [[kk, int(v)] for kk, v in d.items()])
+            plain = (lambda g: list(g)) if bits else (lambda d: sorted((kk, int(v)) for kk, v in d.items()))
+            f = it.combine_bitstrings if bits else it.combine_measurement_counts
+            res = f(args, mults)
+            out = {"res": [show(d) for d in res]}
+            want = [list(g) for g in c["all"]] if bits else [sorted(map(tuple, d)) for d in c["all"]]
+            out["args_intact"] = [plain(a) for a in args] == want and list(mults) == c["mults"]
+            res2 = f(args, mults)
+            out["again"] = [show(d) for d in res2]
+            if touch:
+                for d in res:
+                    if bits and isinstance(d, list):
+                        d.append("000")
+                    elif not bits and isinstance(d, dict) and d:
+                        d[next(iter(d))] += 5
             return out
         if k == "batches":
-            cs = list(range(c.get("n_circuits", len(c["ns"]))))
-            res = list(it.split_into_batches(cs, c["ns"], c["max"]))
-            return {"res": [[list(b), n] for b, n in res]}
+            nc = c.get("n_circuits", len(c["ns"]))
+            labels = c.get("labels") or list(range(nc))
+            ns_arg = _arg(pool, "ns", [_npint(c, n) for n in c["ns"]], c)
+            circuits = ns_arg if c.get("same_obj") else _arg(pool, "circuits", _circuits(c, labels), c)
+            mx = _npint(c, c["max"])
+            res = list(it.split_into_batches(circuits, ns_arg, mx))
+            out = {"res": [[[_lab(x) for x in b], int(n)] for b, n in res]}
+            want_c = c["ns"] if c.get("same_obj") else list(labels)
+            out["args_intact"] = [_lab(x) for x in circuits] == want_c and [int(x) for x in ns_arg] == c["ns"]
+            return out
         if k == "scale":
+            import numpy as np
             vals = [float(unrat(v)) for v in c["values"]]
-            return {"res": [int(x) for x in scale_and_discretize(vals, c["total"])]}
+            if c.get("num") == "int":
+                vals = [int(v) if v == int(v) and abs(v) < 2 ** 53 else v for v in vals]
+            elif c.get("num") == "np":
+                vals = [np.float64(v) for v in vals]
+            vals_arg = _arg(pool, "values", vals, c)
+            res = scale_and_discretize(vals_arg, _npint(c, c["total"]))
+            out = {"res": [int(x) for x in res], "integral": all(x == int(x) for x in res),
+                   "args_intact": [float(v) for v in vals_arg] == [float(v) for v in vals]}
+            if touch and isinstance(res, list) and res:
+                res[0] += 3
+                res.append(1)
+            return out
         if k == "representing":
             import numpy as np
             np.random.seed(c["seed"])
             if c.get("tuples"):
-                d = MOD({tuple(int(x) for x in kk.split(",")): float(unrat(p)) for kk, p in c["dist"]})
+                new = {tuple(int(x) for x in kk.split(",")): float(unrat(p)) for kk, p in c["dist"]}
                 show = lambda t: ",".join(str(b) for b in t)  # noqa: E731
             else:
-                d = MOD({kk: float(unrat(p)) for kk, p in c["dist"]})
+                new = {tuple(int(x) for x in kk): float(unrat(p)) for kk, p in c["dist"]}
                 show = lambda t: "".join(str(b) for b in t)  # noqa: E731
+            d = None
+            if pool is not None and pool.get("reuse"):
+                d = pool.get("dist")
+            if d is not None:
+                # the caller's long-lived distribution object, its public dict updated in place
+                d.distribution_dict.clear()
+                d.distribution_dict.update(new)
+            else:
+                if pool is not None:
+                    pool.pop("dist", None)  # the previous object is dropped before the new one is made
+                d = MOD(dict(new))
+                if pool is not None:
+                    pool["dist"] = d
             before = dict(d.distribution_dict)
-            m = Measurements.get_measurements_representing_distribution(d, c["n"])
-            return {"res": [show(t) for t in m.bitstrings],
-                    "source_intact": before == d.distribution_dict}
+            m = Measurements.get_measurements_representing_distribution(d, _npint(c, c["n"]))
+            # (only n + 64 shots of an over-long answer are transcribed: an implementation that accumulates shots
+            # from call to call must not make the check quadratic)
+            keep = int(c["n"]) + 64
+            out = {"res": [show(t) for t in m.bitstrings[:keep]], "len": len(m.bitstrings),
+                   "source_intact": before == d.distribution_dict}
+            if pool is not None:
+                pool.setdefault("handed_out", []).append((len(pool.get("outs", [])), m, show, list(m.bitstrings[:keep]), bool(touch)))
+            if touch:
+                m.bitstrings.append(m.bitstrings[0])
+                m.bitstrings.append(m.bitstrings[0])
+                m.bitstrings.reverse()
+            return out
+        if k == "pipeline":
+            return _run_pipeline(c, it)
     except ValueError as e:
         return {"err": "err:value", "msg": str(e)[:100]}
     raise AssertionError("unknown kind")
 
 
-def requests(c, out):
+class _NoAnswer(Exception):
+    pass
+
+
+_HANGS = [0]
+CALL_DEADLINE_S = 30  # the calls made here take milliseconds (a quarter of a million shots: well under a second)
+
+
+def _bounded(c, pool=None):
+    """_run_one under a deadline: a call that does not come back is reported with its input instead of stalling the
+    whole check (the runner's own alarm is suspended for the duration and re-armed afterwards)"""
+    import signal
+    import time
+    if _HANGS[0] >= 4:
+        return {"exc": "NotRun", "msg": "not executed: four earlier calls of this run did not return"}
+    try:
+        old = signal.getsignal(signal.SIGALRM)
+        left = signal.alarm(0)
+    except ValueError:  # not the main thread: no deadline available
+        return _run_one(c, pool)
+
+    def on_alarm(signum, frame):
+        raise _NoAnswer()
+
+    t0 = time.time()
+    limit = CALL_DEADLINE_S if _HANGS[0] == 0 else 3
+    signal.signal(signal.SIGALRM, on_alarm)
+    signal.alarm(limit)
+    try:
+        return _run_one(c, pool)
+    except _NoAnswer:
+        _HANGS[0] += 1
+        return {"exc": "NoAnswer", "msg": f"the call did not return within {limit} s"}
+    finally:
+        signal.alarm(0)
+        signal.signal(signal.SIGALRM, old)
+        if left:
+            signal.alarm(max(1, left - int(time.time() - t0)))
+
+
+def run_impl(c):
+    if c["kind"] != "seq":
+        return _bounded(c)
+    pool = {"reuse": bool(c.get("reuse")), "outs": []}
+    for st in c["steps"]:
+        try:
+            o = _bounded(st, pool)
+        except Exception as e:  # same convention as the runner: recorded, the oracle fails the step
+            o = {"exc": type(e).__name__, "msg": str(e)[:200]}
+        pool["outs"].append(o)
+    late = []
+    for i, m, show, recorded, touched in pool.get("handed_out", []):
+        # a result handed out earlier is looked at again after the later calls
+        if not touched and list(m.bitstrings[:len(recorded) + 1]) != recorded:
+            late.append({"step": i, "len": len(m.bitstrings), "now": [show(t) for t in m.bitstrings[:len(recorded) + 1]]})
+    return {"steps": pool["outs"], "late": late}
+
+
+# ------------------------------------------------------------------------------------------------ model
+def _requests_one(c, out):
     k = c["kind"]
     if k == "expand":
         return [("expand", {"n": c["n"], "m": c["m"]})]
@@ -212,17 +905,25 @@ def requests(c, out):
     if k == "combine_counts":
         return [("combine_counts", {"all": c["all"], "mults": c["mults"]})]
     if k == "batches":
-        return [("batches", {"circuits": list(range(c.get("n_circuits", len(c["ns"])))), "ns": c["ns"], "max": c["max"]})]
+        nc = c.get("n_circuits", len(c["ns"]))
+        labels = c["ns"] if c.get("same_obj") else (c.get("labels") or list(range(nc)))
+        return [("batches", {"circuits": labels, "ns": c["ns"], "max": c["max"]})]
     if k == "scale":
         return [("scale", {"values": c["values"], "total": c["total"], "order": []})] if c["exact"] else []
     if k == "representing":
-        if "res" not in out:
+        if "res" not in out or not c.get("exact", True) or c["n"] > MODEL_MAX_SHOTS or out.get("len") != len(out["res"]):
             return []
         return [("representing_check", {"dist": c["dist"], "n": c["n"], "result": out["res"]})]
     return []
 
 
-def compare(c, out, resp):
+def requests(c, out):
+    if c["kind"] != "seq":
+        return _requests_one(c, out)
+    return [r for st, o in zip(c["steps"], out["steps"]) for r in _requests_one(st, o)]
+
+
+def _compare_one(c, out, resp):
     r = resp[0]
     if isinstance(r, dict) and "driver_error" in r:
         return "driver error: " + r["driver_error"]
@@ -266,9 +967,49 @@ def compare(c, out, resp):
     return None
 
 
-def oracle(c, out):
+def compare(c, out, resp):
+    if c["kind"] != "seq":
+        return _compare_one(c, out, resp)
+    pos = 0
+    for i, (st, o) in enumerate(zip(c["steps"], out["steps"])):
+        n = len(_requests_one(st, o))
+        if n:
+            msg = _compare_one(st, o, resp[pos:pos + n])
+            if msg:
+                return f"step {i}: {msg}"
+        pos += n
+    return None
+
+
+# ------------------------------------------------------------------------------------------------ oracle
+def _regroup_totals(new, mults):
+    pos, tot = 0, []
+    for mu in mults:
+        tot.append(sum(new[pos:pos + mu]))
+        pos += mu
+    return tot, pos
+
+
+def _oracle_batches(batches, labels, ns, mx, tag):
+    flat = [x for b, _ in batches for x in b]
+    if flat != list(labels):
+        return (tag + "-cover", f"batches {batches} do not cover circuits {list(labels)} once in order")
+    pos = 0
+    for b, n in batches:
+        if not (1 <= len(b) <= mx):
+            return (tag + "-size", f"batch {b} violates size bound {mx}")
+        asked = ns[pos:pos + len(b)]
+        if any(a > n for a in asked):
+            return (tag + "-samples", f"batch {b} requests {n} samples < a circuit's request {asked}")
+        pos += len(b)
+    return None
+
+
+def _oracle_one(c, out):
     """the property's own sentences, on the implementation's output only"""
     k = c["kind"]
+    if "exc" in out and k != "scale":
+        return (k + "-raise", f"{k} raised {out}")
     if k == "expand":
         n, m = c["n"], c["m"]
         ns = out.get("ns")
@@ -281,16 +1022,15 @@ def oracle(c, out):
         new, mults, circ = out["ns"], out["mults"], out["circuits"]
         if any(not (1 <= x <= m) for x in new):
             return ("expand-sizes", f"expanded counts {new} outside 1..{m}")
-        pos, tot = 0, []
-        for mu in mults:
-            tot.append(sum(new[pos:pos + mu]))
-            pos += mu
+        tot, pos = _regroup_totals(new, mults)
         if tot != ns or pos != len(new) or len(mults) != len(ns):
             return ("expand-sizes", f"per-circuit totals {tot} differ from requested {ns}")
         labels = c.get("labels") or list(range(len(ns)))
         want = [labels[i] for i, mu in enumerate(mults) for _ in range(mu)]
         if circ != want:
             return ("expand-sizes-order", f"expanded circuits {circ} not grouped in order {want}")
+        if not out.get("args_intact", True):
+            return ("expand-sizes-mutates", "expand_sample_sizes modified the circuits / sample counts it was given")
     elif k == "combine_bitstrings":
         if len(c["all"]) != sum(c["mults"]):
             return None if out.get("err") else ("combine-accepts-mismatch", "length mismatch accepted")
@@ -300,26 +1040,36 @@ def oracle(c, out):
         for mu in c["mults"]:
             want.append([b for g in c["all"][pos:pos + mu] for b in g])
             pos += mu
-        if out["res"] != want:
+        # "never loses or invents a shot": per circuit the same shots with the same multiplicities (the order
+        # inside a group is compared with the model only)
+        def bag(groups):
+            return [sorted(g) for g in groups]
+        if bag(out["res"]) != bag(want):
             return ("combine-bitstrings", f"combined {out['res']} but groups are {want}")
+        if bag(out.get("again", want)) != bag(want):
+            return ("combine-bitstrings-repeat", f"combining the same per-copy results a second time gave {out['again']}, groups are {want}")
+        if not out.get("args_intact", True):
+            return ("combine-bitstrings-mutates", "combine_bitstrings modified the per-copy results it was given")
     elif k == "combine_counts":
         if len(c["all"]) != sum(c["mults"]):
             return None if out.get("err") else ("combine-accepts-mismatch", "length mismatch accepted")
         if "res" not in out:
             return ("combine-raise", f"combine_measurement_counts raised {out}")
-        pos = 0
-        for mu, got in zip(c["mults"], out["res"]):
-            want = Counter()
-            for g in c["all"][pos:pos + mu]:
-                for kk, v in g:
-                    want[kk] += v
-            pos += mu
-            if dict(want) != dict(map(tuple, got)):
-                return ("combine-counts", f"combined counts {got} but group totals are {dict(want)}")
-        if len(out["res"]) != len(c["mults"]):
-            return ("combine-counts", "wrong number of combined results")
-        if [sorted(map(tuple, d)) for d in out.get("again", out["res"])] != [sorted(map(tuple, d)) for d in out["res"]]:
-            return ("combine-counts-repeat", "combining the same per-copy results a second time gave different totals")
+        for name in ("res", "again"):
+            pos = 0
+            res = out.get(name, out["res"])
+            for mu, got in zip(c["mults"], res):
+                want = Counter()
+                for g in c["all"][pos:pos + mu]:
+                    for kk, v in g:
+                        want[kk] += v
+                pos += mu
+                if dict(want) != dict(map(tuple, got)):
+                    if name == "again":
+                        return ("combine-counts-repeat", f"combining the same per-copy results a second time gave {got}, group totals are {dict(want)}")
+                    return ("combine-counts", f"combined counts {got} but group totals are {dict(want)}")
+            if len(res) != len(c["mults"]):
+                return ("combine-counts", "wrong number of combined results")
         if not out.get("args_intact", True):
             return ("combine-counts-mutates", "combine_measurement_counts modified the per-copy results it was given")
     elif k == "batches":
@@ -329,39 +1079,105 @@ def oracle(c, out):
             return None if out.get("err") else ("batches-accept-invalid", f"invalid request accepted: {out}")
         if "res" not in out:
             return ("batches-raise", f"split_into_batches raised {out}")
-        flat = [x for b, _ in out["res"] for x in b]
-        if flat != list(range(nc)):
-            return ("batches-cover", f"batches {out['res']} do not cover circuits 0..{nc - 1} once in order")
-        for b, n in out["res"]:
-            if not (1 <= len(b) <= c["max"]):
-                return ("batches-size", f"batch {b} violates size bound {c['max']}")
-            if any(c["ns"][i] > n for i in b):
-                return ("batches-samples", f"batch {b} requests {n} < a circuit's request")
+        labels = c["ns"] if c.get("same_obj") else (c.get("labels") or list(range(nc)))
+        bad = _oracle_batches(out["res"], labels, c["ns"], c["max"], "batches")
+        if bad:
+            return bad
+        if not out.get("args_intact", True):
+            return ("batches-mutates", "split_into_batches modified the circuits / sample counts it was given")
     elif k == "scale":
+        # totals from 2**52 on: the float shares have no fractional part, the listed finding F18, kept apart
+        pre = "scale-total-from-2^52" if c["total"] >= 2 ** 52 else None
         if "res" not in out:
-            return ("scale-raise", f"scale_and_discretize raised {out}")
+            return (pre or "scale-raise", f"scale_and_discretize({c['values']}, {c['total']}) raised {out}")
         vals = [unrat(v) for v in c["values"]]
         s = sum(vals)
+        if len(out["res"]) != len(vals):
+            return (pre or "scale-sum", f"{len(out['res'])} integers returned for {len(vals)} weights")
+        if not out.get("integral", True):
+            return (pre or "scale-sum", "scale_and_discretize returned non-integers")
         if sum(out["res"]) != c["total"]:
-            return ("scale-sum", f"scaled {out['res']} sums to {sum(out['res'])} != {c['total']}")
+            return (pre or "scale-sum", f"scaled {out['res']} sums to {sum(out['res'])} != {c['total']}")
         for v, r in zip(vals, out["res"]):
-            if abs(r - v * c["total"] / s) > 1 + Fraction(1, 10 ** 6):
-                return ("scale-within-one", f"entry {r} farther than one from share {float(v * c['total'] / s)}")
+            share = v * c["total"] / s
+            # slack: the weights reach the code as floats (relative error 2**-53 each)
+            if abs(r - share) > 1 + Fraction(1, 10 ** 6) + share / 10 ** 9:
+                return (pre or "scale-within-one", f"entry {r} farther than one from share {float(share)}")
+        if not out.get("args_intact", True):
+            return ("scale-mutates", "scale_and_discretize modified the weights it was given")
     elif k == "representing":
         if "res" not in out:
             return ("representing-raise", f"get_measurements_representing_distribution raised {out}")
-        if len(out["res"]) != c["n"]:
-            return ("representing-length", f"{len(out['res'])} shots returned, {c['n']} requested")
+        if out.get("len", len(out["res"])) != c["n"]:
+            return ("representing-length", f"{out.get('len', len(out['res']))} shots returned, {c['n']} requested")
         supp = {kk for kk, p in c["dist"] if unrat(p) > 0}
-        if any(b not in supp for b in out["res"]):
-            return ("representing-support", f"shots {sorted(set(out['res']) - supp)} outside the support")
+        outside = set(out["res"]) - supp
+        if outside:
+            return ("representing-support", f"shots {sorted(outside)[:10]} outside the support {sorted(supp)[:20]}")
         if not out.get("source_intact", True):
             return ("representing-mutates", "the distribution argument was modified")
+    elif k == "pipeline":
+        ns, m = c["ns"], c["m"]
+        if "err" in out:
+            return ("pipeline-raise", f"expand -> batch -> run -> combine raised {out}")
+        new, mults = out["new_ns"], out["mults"]
+        if any(not (1 <= x <= m) for x in new):
+            return ("expand-sizes", f"expanded counts {new} outside 1..{m}")
+        tot, pos = _regroup_totals(new, mults)
+        if tot != ns or pos != len(new) or len(mults) != len(ns):
+            return ("expand-sizes", f"per-circuit totals {tot} of the expansion differ from requested {ns}")
+        want = [c["labels"][i] for i, mu in enumerate(mults) for _ in range(mu)]
+        if out["new_circuits"] != want:
+            return ("expand-sizes-order", f"expanded circuits {out['new_circuits']} not grouped in order {want}")
+        bad = _oracle_batches(out["batches"], out["new_circuits"], new, c["batch"], "batches")
+        if bad:
+            return bad
+        if out["short_batch"] is not None:
+            return ("batches-samples", f"copy {out['short_batch'][0]} asked for {out['short_batch'][1]} samples, its batch ran {out['short_batch'][2]}")
+        if out["bit_totals"] != ns:
+            return ("pipeline-bitstring-totals", f"combined bitstrings per circuit {out['bit_totals']}, requested {ns} (multiplicities {mults})")
+        if out["count_totals"] != ns:
+            return ("pipeline-count-totals", f"combined counts per circuit {out['count_totals']}, requested {ns} (multiplicities {mults})")
+        if not all(out["agree"]):
+            return ("pipeline-counts-vs-bitstrings", "combined counts are not the histogram of the combined bitstrings")
+        if not out.get("args_intact", True):
+            return ("expand-sizes-mutates", "the circuits / sample counts given to the pipeline were modified")
+    return None
+
+
+def oracle(c, out):
+    if c["kind"] != "seq":
+        return _oracle_one(c, out)
+    for i, (st, o) in enumerate(zip(c["steps"], out.get("steps", []))):
+        res = _oracle_one(st, o)
+        if res is not None:
+            return (res[0], f"call {i + 1} of {len(c['steps'])} in this history: {res[1]}")
+    if len(out.get("steps", [])) != len(c["steps"]):
+        return ("seq-raise", f"history not executed: {out}")
+    for late in out.get("late", []):
+        st = c["steps"][late["step"]]
+        supp = {kk for kk, p in st["dist"] if unrat(p) > 0}
+        if late["len"] != st["n"] or set(late["now"]) - supp:
+            return ("representing-result-shared",
+                    f"the result of call {late['step'] + 1} ({st['n']} shots) changed when a later call was made: now {late['now'][:12]}…")
     return None
 
 
 def distribution(cases, outs):
+    def flat(cs):
+        for c in cs:
+            if c["kind"] == "seq":
+                yield from c["steps"]
+            else:
+                yield c
     rej = sum(1 for o in outs if isinstance(o, dict) and o.get("err"))
+    allc = list(flat(cases))
     return {"rejected_requests": rej,
-            "expand_nonmultiple": sum(1 for c in cases if c["kind"] == "expand" and c["n"] % c["m"]),
-            "max_n": max((c["n"] for c in cases if c["kind"] == "expand"), default=0)}
+            "calls_including_history_steps": len(allc),
+            "histories_reusing_argument_objects": sum(1 for c in cases if c["kind"] == "seq" and c.get("reuse")),
+            "steps_touching_their_result": sum(1 for c in allc if c.get("touch")),
+            "unhashable_circuit_objects": sum(1 for c in allc if c.get("objs")),
+            "numpy_integers": sum(1 for c in allc if c.get("np")),
+            "representing_max_shots": max((c["n"] for c in allc if c["kind"] == "representing"), default=0),
+            "expand_nonmultiple": sum(1 for c in allc if c["kind"] == "expand" and c["n"] % c["m"]),
+            "max_n": max((c["n"] for c in allc if c["kind"] == "expand"), default=0)}
